@@ -762,6 +762,11 @@ func runC05(p *core.Program, r *core.Report) {
 		r.Check(derivesFromList(a.base, g, seps), "R5.1a", name, "the atom is appended to the running token list", p.InstrPos(a.call), "")
 	}
 	checkTitleIffCap(p, r, g, "R5.1a")
+	// the words drawn from are exactly the caller's words (= C10 R10.2/R10.3 re-run): a
+	// constructor that rewrites or empties words changes the atoms (an emptied word yields none)
+	if c2 := resolveWLCtor(p, r, "R5.1a"); c2 != nil {
+		r.Borrow("R5.1a", func() { checkKeptSet(p, r, c2) })
+	}
 	// R5.1b
 	if len(seps) > 1 {
 		r.Fail("R5.1b", name, "at most one separator append per iteration", p.InstrPos(c.Phi), fmt.Sprintf("%d separator appends", len(seps)))
